@@ -573,7 +573,48 @@ def _s7_sibling_returns(program, res):
         raise AnalysisError(f"C03-S7: only {n} sibling methods with a value-returning Pandas reference found")
 
 
+def empty_frame_types_rule(program, res, rule="C03-S8", methods=None):
+    """a zero-row result built as DataFrame({name: [] for name in ...}) has no column types: Pandas makes every column float64, Polars Null.
+    The next step that meets a populated table (join keys, concat, fill of shared columns) then raises on the mismatch although no row is
+    involved.  A zero-row result has to be built from typed columns (the input's own, or typed empty series)"""
+    n = 0
+    for (mod, cls) in (("pandas_base", "PandasModelBase"), ("polars_model", "PolarsModel")):
+        c = program.cls(mod, cls)
+        for m in c.methods.values():
+            if methods is not None and m.name not in methods:
+                continue
+            n += 1
+            res.analysed(m)
+            bad = []
+            for call in ast.walk(m.node):
+                if isinstance(call, ast.Call) and (dotted_name(call.func) or "").endswith("DataFrame") and call.args and isinstance(call.args[0], ast.DictComp) \
+                        and isinstance(call.args[0].value, ast.List) and not call.args[0].value.elts \
+                        and not any(kw.arg in ("schema", "dtype", "schema_overrides") for kw in call.keywords):
+                    bad.append(call)
+                # ... or DataFrame(<local>) where the local is such a comprehension
+                if isinstance(call, ast.Call) and (dotted_name(call.func) or "").endswith("DataFrame") and call.args and isinstance(call.args[0], ast.Name):
+                    for a_ in ast.walk(m.node):
+                        if isinstance(a_, ast.Assign) and len(a_.targets) == 1 and isinstance(a_.targets[0], ast.Name) and a_.targets[0].id == call.args[0].id \
+                                and isinstance(a_.value, ast.DictComp) and isinstance(a_.value.value, ast.List) and not a_.value.value.elts:
+                            bad.append(a_)
+            for st in ast.walk(m.node):
+                # frame[name] = []  (a column added to a zero-row frame)
+                if isinstance(st, ast.Assign) and len(st.targets) == 1 and isinstance(st.targets[0], ast.Subscript) and isinstance(st.value, ast.List) and not st.value.elts \
+                        and isinstance(st.targets[0].value, ast.Name) and st.targets[0].value.id in ("res", "data", "left", "right"):
+                    bad.append(st)
+            if bad:
+                res.fail_at(rule, m, f"zero-row-frame-without-types:{m.name}",
+                            f"`{unparse(bad[0])[:80]}` in {cls}.{m.name}: every column of the zero-row result is float64 (Pandas) / Null (Polars) whatever the input's types — "
+                            f"two filters that select nothing, joined, then outer-joined to a populated table raise TypeError on Pandas; an empty table sent through "
+                            f"convert_records and concat_rows raises SchemaError on Polars; SQL returns the other table's rows", bad[0])
+            else:
+                res.ok(rule, f"{cls}.{m.name}: no zero-row frame is built from bare empty lists", nontrivial=False)
+    res.expect_count(rule, "data-model methods examined", n, 2 if methods else 60)
+
+
 def run(program, res, tier):
+    res.rule("C03-S8", "zero-row results keep the column types of their inputs")
+    empty_frame_types_rule(program, res)
     res.rule("C03-S1", "every node kind has a Polars step that refuses other kinds")
     res.rule("C03-S2", "expression lookup: found in an implementation table or raise")
     res.rule("C03-S3", "implementation table entries mean the operator they are filed under")
